@@ -98,7 +98,14 @@ fn light_case(ctx: &mut Ctx, case: u64, rng: &mut Rng, scratch: &Scratch) {
             for a in &uni.authors {
                 store.import_author(a.clone()).unwrap();
             }
-            Node { store, path, skew: rng.below((2 * MIN4) as usize + 1) as i64 - MIN4 as i64 }
+            // skews: mostly large, sometimes zero or one microsecond apart, so that different
+            // replicas also produce *equal* timestamps for the same key
+            let skew = match rng.below(4) {
+                0 => 0,
+                1 => rng.below(3) as i64 - 1,
+                _ => rng.below((2 * MIN4) as usize + 1) as i64 - MIN4 as i64,
+            };
+            Node { store, path, skew }
         })
         .collect();
     let mut written: Vec<SignedEntry> = vec![];
@@ -112,13 +119,16 @@ fn light_case(ctx: &mut Ctx, case: u64, rng: &mut Rng, scratch: &Scratch) {
     let events = rng.range(8, if ctx.is_quick() { 60 } else { 120 });
     ctx.eval();
     for _ in 0..events {
-        tick += 1;
+        // the logical clock does not always advance between events (same-tick writes)
+        if rng.chance(2, 3) {
+            tick += 1;
+        }
         match rng.below(10) {
             0..=3 => {
                 // local write
                 let i = rng.below(n);
                 let a = rng.below(uni.authors.len());
-                let k = key(rng, &keys, 3);
+                let k = if !keys.is_empty() && rng.chance(1, 3) { rng.pick(&keys).clone() } else { key(rng, &keys, 3) };
                 keys.push(k.clone());
                 let now = clock_of(base, nodes[i].skew, tick);
                 iroh_docs::verif::set_clock(now);
